@@ -41,7 +41,25 @@ def load():
 
 
 def entries(prop, include_fixed=False):
-    return [e for e in load() if e["property"] == prop and (include_fixed or e.get("status", "open") == "open")]
+    return [e for e in load() if prop in _props(e) and (include_fixed or e.get("status", "open") == "open")]
+
+
+def _props(e):
+    p = e["property"]
+    return p if isinstance(p, list) else [p]
+
+
+def witness(e, prop):
+    """(oid, values) of the entry's witness for this property, or None"""
+    w = e.get("witness")
+    if not w:
+        return None
+    oid = w.get("oid")
+    if isinstance(oid, dict):
+        oid = oid.get(prop)
+    if oid is None:
+        return None
+    return oid, w["values"]
 
 
 def _where(e, tags):
